@@ -6,9 +6,9 @@ VERIF = os.path.dirname(os.path.dirname(os.path.abspath(__file__)))
 sys.path.insert(0, os.path.join(VERIF, "tools"))
 import build, tlc  # noqa: E402
 
-BUILD = os.path.join(VERIF, ".build")
-EVID = os.path.join(VERIF, "evidence")
-REPLAYS = os.path.join(VERIF, "replays")
+BUILD = os.environ.get("VERIF_BUILD") or os.path.join(VERIF, ".build")      # (VERIF_BUILD: private build directory for runs against a scratch tree)
+EVID = os.path.join(os.environ.get("VERIF_OUT") or VERIF, "evidence")
+REPLAYS = os.path.join(os.environ.get("VERIF_OUT") or VERIF, "replays")
 REPO = build.REPO
 NCPU = int(os.environ.get("VERIF_JOBS", "16"))
 
